@@ -30,7 +30,7 @@ Item(n) ==
 SubPart == <<Text(<<"s", ":">>), Emit(Id("d")), Emit(Id("o"))>>
 
 Comps == {"cfor_omit", "partial", "partial_js", "partial_html", "partial_nodata", "layout", "layout2", "layout_js", "nested", "cfor", "cfor_twice", "cfor_redefined",
-          "cof_default", "cof_undefined", "cof_defined_default", "blk", "blkown", "blks"}
+          "cof_default", "cof_undefined", "cof_defined_default", "blk", "blkown", "blks", "cfor_inloop", "layout_cfor"}
 CTs == {"none", "html", "js"}
 CT(c) == CASE c = "none" -> EmptyScope [] c = "html" -> [contentType |-> S(<<"t","e","x","t","/","h","t","m","l">>)]
            [] c = "js" -> [contentType |-> S(<<"a","p","p","/","j","a","v","a","s","c","r","i","p","t">>)]
@@ -63,6 +63,14 @@ Compose(c, body) ==
                                          Emit(Call("contentOf", <<Str(<<"c">>), Hash(<<"d", "e">>, <<D, IntL(1)>>)>>)), Text(<<"|">>),
                                          Let("d", Str(<<"t", "o", "p">>)), Emit(Call("contentOf", <<Str(<<"c">>)>>)), Emit(IfElse(Id("e"), <<Text(<<"L">>)>>, <<Text(<<"-">>)>>))>>, parts |-> EmptyScope,
                               inline |-> <<>>]
+    \* the stored block rendered from inside a loop body, which goes on using its own loop variable afterwards
+    [] c = "cfor_inloop"  -> [prog |-> <<Code(CallB("contentFor", <<Str(<<"c">>)>>, body)),
+                                         Emit(For("", "w", Arr(<<IntL(7), IntL(8)>>), <<Emit(Call("contentOf", <<Str(<<"c">>), DH>>)), Text(<<":">>), Emit(Id("w")), Text(<<";">>)>>))>>, parts |-> EmptyScope,
+                              inline |-> <<Emit(For("", "w", Arr(<<IntL(7), IntL(8)>>), <<Emit(CallB("blkown", <<DH>>, body)), Text(<<":">>), Emit(Id("w")), Text(<<";">>)>>))>>]
+    \* the partial's body stores a block that the layout of the same call consumes
+    [] c = "layout_cfor"  -> [prog |-> <<Emit(Call("partial", <<P(<<"p">>), Hash(<<"d", "layout">>, <<D, Str(<<"k">>)>>)>>))>>,
+                              parts |-> [p |-> <<Code(CallB("contentFor", <<Str(<<"t">>)>>, body)), Text(<<"b">>)>>,
+                                         k |-> <<Text(<<"<">>), Emit(Call("contentOf", <<Str(<<"t">>)>>)), Text(<<"|">>), Emit(Id("yield")), Text(<<">">>)>>], inline |-> <<>>]
     [] c = "cfor_redefined" -> [prog |-> <<Code(CallB("contentFor", <<Str(<<"c">>)>>, <<Text(<<"o", "l", "d">>)>>)), Code(CallB("contentFor", <<Str(<<"c">>)>>, body)), Emit(Call("contentOf", <<Str(<<"c">>), DH>>))>>, parts |-> EmptyScope,
                               inline |-> <<Emit(CallB("blkown", <<DH>>, body))>>]
     [] c = "cof_default"  -> [prog |-> <<Emit(CallB("contentOf", <<Str(<<"n">>), DH>>, body))>>, parts |-> EmptyScope, inline |-> <<Emit(CallB("blkown", <<DH>>, body))>>]
